@@ -212,7 +212,13 @@ class NativeExec:
         self.calls = []
 
     def call(self, f, *args, **kwargs):
-        return f(*args, **kwargs)
+        try:
+            return f(*args, **kwargs)
+        except EngineSignal:
+            raise
+        except BaseException as ex:
+            _mark_real(ex)
+            raise
 
     def getattr(self, obj, name):
         return getattr(obj, name)
@@ -246,7 +252,13 @@ class SymExec:
         return self.I.calls
 
     def call(self, f, *args, **kwargs):
-        return self.I.call(f, list(args), kwargs)
+        try:
+            return self.I.call(f, list(args), kwargs)
+        except EngineSignal:
+            raise
+        except BaseException as ex:
+            _mark_real(ex)
+            raise
 
     def getattr(self, obj, name):
         from .builtins_model import I_frame_getattr
@@ -268,6 +280,26 @@ class Undecided:
 
     def __init__(self, reason):
         self.reason = reason
+
+
+def _mark_real(ex):
+    """exceptions that leave the code under verification through X.call (as opposed to bugs of the contract)"""
+    try:
+        ex._pyvc_real = True
+    except Exception:
+        pass
+
+
+class ContractError(EngineSignal):
+    """the contract / spec code itself raised: a checker error, never a verdict"""
+
+
+def outcome_of_exception(ex):
+    if not getattr(ex, "_pyvc_real", False):
+        import traceback
+
+        raise ContractError("contract code raised %r\n%s" % (ex, "".join(traceback.format_exception(type(ex), ex, ex.__traceback__))[-1500:]))
+    return Outcome("raise", exc=ex)
 
 
 class Outcome:
@@ -386,7 +418,7 @@ def run_native(unit, case, inputs_json):
         except EngineSignal:
             raise
         except BaseException as ex:
-            out = Outcome("raise", exc=ex)
+            out = outcome_of_exception(ex)
         clauses = [(p, n, _as_bool(c)) for p, n, c in unit.ensures(case, a, out, X)]
     for n, c in [(t[1], t[2]) for t in X.trace if t[0] == "obligation"]:
         clauses.append(("*", n, _as_bool(c)))
